@@ -433,6 +433,18 @@ ClassOf(e, str) ==
      ELSE LET c == AD!Classify(e, str)
           IN IF c[1] \in {"w0", "w1+"} THEN [kind |-> "address", net |-> c[2]] ELSE unknown
 
+\* maximal runs of Base58 characters inside a string (a secret may be EMBEDDED in a longer string,
+\* e.g. an output descriptor), restricted to the lengths of WIF and extended-key strings
+B58Runs(str) ==
+  LET r == FoldLeft(LAMBDA acc, c : IF InAlphabet(c) THEN <<acc[1], Append(acc[2], c)>>
+                                    ELSE <<IF Len(acc[2]) \in {51, 52, 111} THEN acc[1] \cup {acc[2]} ELSE acc[1], <<>>>>,
+                    <<{}, <<>>>>, str)
+  IN IF Len(r[2]) \in {51, 52, 111} THEN r[1] \cup {r[2]} ELSE r[1]
+\* does the string, or a Base58 run inside it, decode to a private-key encoding?
+HidesPrivateKey(e, str) ==
+  \/ ClassOf(e, str).kind \in {"wif", "extprv"}
+  \/ \E r \in B58Runs(str) : r # str /\ ClassOf(e, r).kind \in {"wif", "extprv"}
+
 \* coin type of a BIP44-shaped path string m/purpose'/coin'/...: "main" (0'), "test" (1'), "none"
 PathNet(str) ==
   LET p == Parse(str)
@@ -568,7 +580,7 @@ V_Paranoia(e) ==
       looksMnemonic(s) == LET t == Tokens(s) IN Len(t) >= 12 /\ \A j \in 1..Len(t) : t[j] \in words
       bad == {j \in 1..Len(e.filt) :
                 LET s == e.filt[j].s
-                IN \/ ClassOf(e, s).kind \in {"wif", "extprv"}
+                IN \/ HidesPrivateKey(e, s)
                    \/ looksMnemonic(s)
                    \/ s \in nonEmptySecrets
                    \* substring test for secrets long enough not to occur in public text by coincidence
@@ -581,6 +593,7 @@ V_Paranoia(e) ==
               s == e.filt[j].s
           IN IF ClassOf(e, s).kind = "wif" THEN "paranoia-output-contains-wif"
              ELSE IF ClassOf(e, s).kind = "extprv" THEN "paranoia-output-contains-extended-private-key"
+             ELSE IF HidesPrivateKey(e, s) THEN "paranoia-output-embeds-a-private-key-encoding"
              ELSE IF looksMnemonic(s) THEN "paranoia-output-contains-mnemonic"
              ELSE "paranoia-output-contains-secret-string"
      ELSE IF pubFilt # pubFull THEN
